@@ -1,4 +1,5 @@
 import IofloModel.Lemmas.Clones
+import IofloModel.Lemmas.ClonesLeaf
 /-!
 # C12 — cloned framers run like their originals and never share relative state; rear and raze
 
@@ -285,5 +286,157 @@ theorem C12_freed_name_reusable (s : St) (orig : Fr) (name tag : String)
     ∃ s' c, cloneFramer s orig name tag = .ok (s', c) := by
   unfold cloneFramer
   simp [hfree, hn, ho.1, ho.2]
+
+/-! ## a clone runs like its original -/
+
+/-- the calls a main frame makes into an auxiliary framer (`Frame.enter`, `Frame.recur`, `Frame.segueAuxes`,
+`Frame.exit` / `Framer.prune`) -/
+inductive Entry | enterAll | recur | segue | exitAll
+  deriving DecidableEq, Repr
+
+def callEntry (lo : Ops) (u : Nat) : Entry → St → Except Err St
+  | .enterAll => enterAll lo u
+  | .recur => recur lo u
+  | .segue => segue lo u
+  | .exitAll => exitAll lo false u
+
+/-- the same calls on the stand-alone interpreter of one framer without auxiliaries (Lemmas/ClonesLeaf.lean) -/
+def lcallEntry (P : List Frame) (first : String) : Entry → LSt → Except Err LSt
+  | .enterAll => lenterAll P first
+  | .recur => lrecur P
+  | .segue => lsegue P
+  | .exitAll => lexitAll P false
+
+/-- `Leafy P`: the script has no auxiliaries, rears, razes or aux-done needs (it acts on the store and its own
+clocks only) -/
+def Leafy (P : List Frame) : Prop := ∀ f ∈ P, f.leafy = true
+
+/-- `Resolves ι name`: the resolution map of a framer object named `name` — injective on references, and the two clock
+references go to the framer's own state shares -/
+structure Resolves (ι : String → String) (name : String) : Prop where
+  inj : ∀ a b, ι a = ι b → a = b
+  elapsed : ι kElapsed = statePath name "elapsed"
+  recurred : ι kRecurred = statePath name "recurred"
+
+/-- **Refinement.**  A framer object without auxiliaries whose resolved script is the script `P` with every reference
+`r` replaced by its resolved share `ι r` behaves, inside any house and under any entry point, exactly as the
+stand-alone interpreter of `P` on the private memory `k ↦ store[ι k]`: same error or same next control state, same
+memory, and the events it emits are the stand-alone events labelled with its name.  Nothing else about the object
+(name, identity, tag, inode, main frame, the other objects of the house, the other shares) enters. -/
+theorem C12_leaf_refines_partial (lo : Ops) (ι : String → String) (name : String) (P : List Frame) (first : String)
+    (u : Nat) (base : List String) (hι : Resolves ι name) (hP : Leafy P) (e : Entry) (s : St) (l : LSt)
+    (h : Sim ι name P first u base s l) :
+    CorrSt (Sim ι name P first u base) (callEntry lo u e s) (lcallEntry P first e l) := by
+  cases e with
+  | enterAll => exact sim_enterAll lo ι name P first u base hι.inj hP hι.elapsed hι.recurred s l h
+  | recur => exact sim_recur lo ι name P first u base hι.inj hP s l h
+  | segue => exact sim_segue lo ι name P first u base hι.inj hP hι.elapsed hι.recurred s l h
+  | exitAll => exact sim_exitAll lo ι name P first u base hι.inj hP false s l h
+
+/-- … and `Framer.checkStart` gives the same answer -/
+theorem C12_leaf_refines_checkStart_partial (lo : Ops) (ι : String → String) (name : String) (P : List Frame)
+    (first : String) (u : Nat) (base : List String) (hP : Leafy P) (s : St) (l : LSt)
+    (h : Sim ι name P first u base s l) : checkStart lo u s = lcheckStart P first :=
+  sim_checkStart lo ι name P first u base hP s l h
+
+/-- **A clone runs like its original.**  Two framer objects — a clone and the original run as an ordinary auxiliary,
+or two clones — in two houses (or in one), with different names, identities and resolution maps, whose resolved
+scripts are the same leaf script `P` seen through their own resolution maps, and that are in the same situation
+(`Sim … l` for one `l`: same control state, same clock, same values of the shares their references resolve to):
+the same entry point either fails in both with the same error, or succeeds in both, and afterwards they are again in
+one common situation `l'`.  In particular (`Sim.out`) they have emitted the same sequence of (frame, context, tag)
+events, each under its own name, and their relative shares hold the same values. -/
+theorem C12_clone_runs_like_original_partial
+    (lo1 lo2 : Ops) (ι1 ι2 : String → String) (name1 name2 : String) (P : List Frame) (first : String)
+    (u1 u2 : Nat) (base1 base2 : List String) (h1ι : Resolves ι1 name1) (h2ι : Resolves ι2 name2) (hP : Leafy P)
+    (e : Entry) (s1 s2 : St) (l : LSt)
+    (h1 : Sim ι1 name1 P first u1 base1 s1 l) (h2 : Sim ι2 name2 P first u2 base2 s2 l) :
+    match callEntry lo1 u1 e s1, callEntry lo2 u2 e s2 with
+    | .ok s1', .ok s2' => ∃ l', Sim ι1 name1 P first u1 base1 s1' l' ∧ Sim ι2 name2 P first u2 base2 s2' l'
+    | .error e1, .error e2 => e1 = e2
+    | _, _ => False := by
+  have c1 := C12_leaf_refines_partial lo1 ι1 name1 P first u1 base1 h1ι hP e s1 l h1
+  have c2 := C12_leaf_refines_partial lo2 ι2 name2 P first u2 base2 h2ι hP e s2 l h2
+  cases r : lcallEntry P first e l with
+  | error er =>
+    rw [r] at c1 c2
+    cases r1 : callEntry lo1 u1 e s1 with
+    | ok s1' => rw [r1] at c1; exact c1.elim
+    | error e1 =>
+      cases r2 : callEntry lo2 u2 e s2 with
+      | ok s2' => rw [r2] at c2; exact c2.elim
+      | error e2 =>
+        rw [r1] at c1; rw [r2] at c2
+        exact c1.trans c2.symm
+  | ok l' =>
+    rw [r] at c1 c2
+    cases r1 : callEntry lo1 u1 e s1 with
+    | error e1 => rw [r1] at c1; exact c1.elim
+    | ok s1' =>
+      cases r2 : callEntry lo2 u2 e s2 with
+      | error e2 => rw [r2] at c2; exact c2.elim
+      | ok s2' =>
+        rw [r1] at c1; rw [r2] at c2
+        exact ⟨l', c1, c2⟩
+
+/-- the events two such objects have emitted since they were in a common situation are equal up to the name -/
+theorem C12_same_events (ι1 ι2 : String → String) (name1 name2 : String) (P : List Frame) (first : String)
+    (u1 u2 : Nat) (base1 base2 : List String) (s1 s2 : St) (l : LSt)
+    (h1 : Sim ι1 name1 P first u1 base1 s1 l) (h2 : Sim ι2 name2 P first u2 base2 s2 l) :
+    ∃ evs : List (String × Ctxt × String), s1.out = evs.map (render name1) ++ base1 ∧ s2.out = evs.map (render name2) ++ base2 ∧
+      (∀ k, s1.read (ι1 k) = s2.read (ι2 k)) :=
+  ⟨l.ev, h1.out, h2.out, fun k => (h1.mem k).trans (h2.mem k).symm⟩
+
+/-- **The rest of the house does not matter.**  Whatever happens between two calls — other framers run, other shares
+change, objects are made and razed, time advances — as long as the object itself and the shares its references
+resolve to are left alone, the object is in the same situation as before at the new time (events counted from the new
+output on).  So two such objects that see the same times stay in one common situation over a whole run. -/
+theorem C12_situation_stable (ι : String → String) (name : String) (P : List Frame) (first : String) (u : Nat)
+    (base : List String) (s s' : St) (l : LSt)
+    (h : Sim ι name P first u base s l)
+    (hobj : s'.get? u = s.get? u) (hmem : ∀ k, s'.read (ι k) = s.read (ι k)) :
+    Sim ι name P first u s'.out s' { l with now := s'.now, ev := [] } :=
+  { obj := by rw [hobj]; exact h.obj
+    mem := fun k => (hmem k).trans (h.mem k)
+    now := rfl
+    out := by simp }
+
+/-- the resolution map of name-relative references: `framer.<name>.` in front -/
+def prefixMap (name : String) (k : String) : String := "framer." ++ name ++ "." ++ k
+
+theorem C12_prefix_map_resolves (name : String) : Resolves (prefixMap name) name := by
+  refine ⟨?_, ?_, ?_⟩
+  · intro a b h
+    unfold prefixMap at h
+    exact (String.append_right_inj _).mp h
+  · unfold prefixMap kElapsed statePath
+    simp only [String.append_assoc]
+    rfl
+  · unfold prefixMap kRecurred statePath
+    simp only [String.append_assoc]
+    rfl
+
+/-! non-vacuity: a concrete clone object in a concrete house is in a situation, and its script is a leaf script with
+a transition, a counter and a `done` -/
+
+def exP : List Frame :=
+  [{ name := "a0", inode := "", over := none, next := some "a1", outline := ["a0"], links := [],
+     items := [.act .enter (.put 0 "cnt"), .act .recur (.inc "cnt" 1), .act .recur (.record "r"),
+               .go "a1" [⟨false, .state "cnt" .ge 2⟩, ⟨false, .state "state.elapsed" .ge 1⟩]] },
+   { name := "a1", inode := "", over := none, next := none, outline := ["a1"], links := [],
+     items := [.act .enter .done, .act .exit (.record "x")] }]
+
+example : ∀ f ∈ exP, f.leafy = true := by decide
+
+def exHouse (name : String) (uid : Nat) : St :=
+  { objs := [{ uid := uid, name := name, tag := "c1", sched := .aux, original := false, inode := "", first := "a0",
+               frames := exP.map (Frame.mapRef (prefixMap name)) }],
+    now := 3 }
+
+example : Sim (prefixMap "ha_c1") "ha_c1" exP "a0" 7 [] (exHouse "ha_c1" 7) { ctl := {}, mem := fun _ => none, now := 3 } :=
+  { obj := ⟨_, rfl, rfl, rfl, rfl, rfl⟩, mem := fun _ => rfl, now := rfl, out := rfl }
+
+example : Sim (prefixMap "qma") "qma" exP "a0" 2 [] (exHouse "qma" 2) { ctl := {}, mem := fun _ => none, now := 3 } :=
+  { obj := ⟨_, rfl, rfl, rfl, rfl, rfl⟩, mem := fun _ => rfl, now := rfl, out := rfl }
 
 end Ioflo.Clones
